@@ -205,6 +205,8 @@ pub enum MsOp {
     SetCommit { back: u8 },
     SetConf { v: u8 },
     CommitTo { back: u8 },
+    /// the storage's asynchronous-fetch toggle (Storage::entries may answer LogTemporarilyUnavailable)
+    LogUnavailable { on: bool },
 }
 
 #[derive(Clone, Debug, Serialize, serde::Deserialize)]
@@ -221,6 +223,7 @@ pub fn ms_strategy(max_ops: usize) -> impl Strategy<Value = MsCase> {
         2 => (0u8..4).prop_map(|back| MsOp::SetCommit { back }),
         1 => (0u8..8).prop_map(|v| MsOp::SetConf { v }),
         1 => (0u8..4).prop_map(|back| MsOp::CommitTo { back }),
+        1 => any::<bool>().prop_map(|on| MsOp::LogUnavailable { on }),
     ];
     (vec(op, 0..max_ops), vec((any::<u8>(), any::<u8>(), any::<u8>()), 1..6)).prop_map(|(ops, queries)| MsCase { ops, queries })
 }
@@ -243,6 +246,7 @@ struct MsModel {
     cs: ConfState,
     /// compaction may have removed entries without moving the snapshot point
     first: u64,
+    log_unavailable: bool,
 }
 
 impl MsModel {
@@ -291,7 +295,7 @@ pub fn run_memstorage(case: &MsCase, stats: &mut MsStats) -> Result<(), String> 
     let store = MemStorage::new_with_conf_state((vec![1u64, 2, 3], vec![]));
     let mut cs0 = ConfState::default();
     cs0.voters = vec![1, 2, 3];
-    let mut m = MsModel { snap_index: 0, snap_term: 0, ents: vec![], hs: HardState::default(), cs: cs0, first: 1 };
+    let mut m = MsModel { snap_index: 0, snap_term: 0, ents: vec![], hs: HardState::default(), cs: cs0, first: 1, log_unavailable: false };
     let mut salt = 0u64;
     let mut cur_term = 1u64;
     for (i, op) in case.ops.iter().enumerate() {
@@ -384,6 +388,10 @@ pub fn run_memstorage(case: &MsCase, stats: &mut MsStats) -> Result<(), String> 
                 store.wl().set_conf_state(cs.clone());
                 m.cs = cs;
             }
+            MsOp::LogUnavailable { on } => {
+                store.wl().trigger_log_unavailable(*on);
+                m.log_unavailable = *on;
+            }
             MsOp::CommitTo { back } => {
                 if m.ents.is_empty() {
                     continue;
@@ -471,6 +479,33 @@ fn check_ms(store: &MemStorage, m: &MsModel, case: &MsCase, stats: &mut MsStats)
             }
             if r.is_empty() {
                 return Err(format!("entries({},{},{:?}) returned nothing", lo, hi, max));
+            }
+        }
+        // asynchronous-fetch toggle: only async-capable contexts, and only for ranges that exist
+        {
+            let lo = first;
+            let hi = last + 1;
+            let r = store.entries(lo, hi, None, GetEntriesContext::empty(true));
+            if m.log_unavailable {
+                if r != Err(Error::Store(StorageError::LogTemporarilyUnavailable)) {
+                    return Err(format!("entries({},{}) with async fetch enabled returned {:?} instead of LogTemporarilyUnavailable", lo, hi, r.map(|v| v.len())));
+                }
+                if store.wl().take_get_entries_context().is_none() {
+                    return Err("LogTemporarilyUnavailable answered without remembering the fetch context".to_string());
+                }
+                stats.error_reads += 1;
+            } else if r.is_err() {
+                return Err(format!("entries({},{}) with an async-capable context failed: {:?}", lo, hi, r.err()));
+            }
+            if first > 1 {
+                match store.entries(first - 1, first, None, GetEntriesContext::empty(true)) {
+                    Err(Error::Store(StorageError::Compacted)) => {
+                        if store.wl().take_get_entries_context().is_some() {
+                            return Err("a read below the first index parked an asynchronous fetch context".to_string());
+                        }
+                    }
+                    r => return Err(format!("async-capable entries({},{}) below the first index returned {:?} instead of Compacted", first - 1, first, r.map(|v| v.len()))),
+                }
             }
         }
         // below first: Compacted
